@@ -143,6 +143,13 @@ func (db *MultiBucketBackend) getBucketWithFilePrefixLocked(bucket string, prefi
 
 	response := gofakes3.NewObjectList()
 
+	// No key has a directory part that is not a clean relative path (see
+	// validKey), and joining one that climbs ("../other") would read a
+	// different bucket's directory:
+	if prefixPath != "" && !validKey(prefixPath) {
+		return response, nil
+	}
+
 	bucketPath := path.Join(bucket, prefixPath)
 
 	// If the directory part of the prefix does not exist, or is an object
